@@ -1,4 +1,4 @@
-\* main configuration: mechanism |= law (modulo the recorded known deviations), memo coherence,
+\* main configuration: mechanism |= law (no exemptions), memo coherence,
 \* isolation, fresh Glommer = pristine default.  bin/check overrides the bounds per tier.
 SPECIFICATION Spec
 CONSTANT U <- MCUniverse
